@@ -148,7 +148,7 @@ func Exec(rig *Rig, sc *Scenario, pre *State, a Action) (*State, *StepResult) {
 		}
 		post.Msgs = 0
 	case a.Mod != nil:
-		res = w.ModCall(a.TxHash, a.Mod)
+		res = w.ModCall(a.TxHash, a.Mod, a.Carry)
 		post.Msgs++
 	default:
 		res = w.DeliverMsg(a.Msg, a.TxHash, 0)
